@@ -247,8 +247,12 @@ class MediaList(cssutils.util._NewListBase):
         self._checkReadonly()
         oldMedium = normalize(oldMedium)
 
-        for i, mq in enumerate(self):
-            if normalize(mq.value.mediaType) == oldMedium:
+        # position in seq, which may hold comments besides the media queries
+        for i, item in enumerate(self._seq):
+            if (
+                item.type == 'MediaQuery'
+                and normalize(item.value.mediaType) == oldMedium
+            ):
                 del self[i]
                 break
         else:
@@ -262,7 +266,8 @@ class MediaList(cssutils.util._NewListBase):
         list, returns ``None``.
         """
         try:
-            return self[index].mediaType
+            # index counts the media queries only, not comments
+            return [item.value for item in self][index].mediaType
         except IndexError:
             return None
 
